@@ -14,7 +14,7 @@ def ferm (j : Json) : R Fermionic :=
 
 def natss (j : Json) : R (List (List Nat)) := list nats j
 
-def signsOrErr (r : Except String (List Block)) : Json :=
+def signsOrErr (r : Except String (List SBlock)) : Json :=
   match r with
   | .ok bs => ofInts (bs.map (fun b => b.2.headD 0))
   | .error e => obj [("err", e)]
